@@ -486,6 +486,41 @@ def check_searches(h: Harness):
                         break
 
 
+def check_helpers(h: Harness):
+    """the public ranking helpers (`problems.helpers.best_individual`, `is_better`): on evaluated populations they name the individual
+    the model's `helperBest` names (the first of maximal aggregate -- what a tracker holds after the same individuals in the same
+    order, `C12_helper_best_eq_tracker`) and compare as the model's `helperIsBetter`"""
+    from geneticengine.problems import helpers
+    rng = h.rng
+    for trial in range(h.n(150, 1500)):
+        n = rng.randint(1, 7)
+        vals = [rng.randint(-2, 3) for _ in range(n)]
+        kind = ("single-max", "single-min", "multi")[trial % 3]
+        if kind == "multi":
+            problem = MultiObjectiveProblem([False, True], lambda ph: [ph[1] + 1, 1])
+        else:
+            problem = SingleObjectiveProblem(lambda ph: ph[1], minimize=kind == "single-min")
+        inds = [mk_ind(i, v) for i, v in enumerate(vals)]
+        SequentialEvaluator().evaluate(problem, inds)
+        hist = [[uid(i), as_int(i.get_fitness(problem).maximizing_aggregate)] for i in inds]
+        try:
+            b = helpers.best_individual(list(inds), problem)
+            a, c = rng.choice(inds), rng.choice(inds)
+            better = helpers.is_better(problem, a, c)
+        except Exception as e:  # noqa: BLE001
+            h.fail("helpers.best_individual", "raises", f"problems.helpers on a {kind} population with values {vals}: {type(e).__name__}: {e}", {"vals": vals, "kind": kind})
+            continue
+        h.count(f"helpers:{kind}")
+        h.agree("helpers.best_individual", ["helper_best", hist], uid(b), nontrivial=n >= 2)
+        h.agree("helpers.is_better", ["helper_is_better", [hist[uid(a)], hist[uid(c)]]], bool(better), nontrivial=uid(a) != uid(c))
+        # the statement itself, judged by the declaration: nobody in the population is strictly fitter than the one returned
+        bv = float(b.genotype[1])
+        fitter = [v for v in vals if (v < bv if kind == "single-min" else v > bv)]
+        if fitter:
+            h.fail("helpers.best_individual", "best-is-not-best", f"best_individual on a {kind} population with fitness values {vals} returned the individual "
+                   f"with value {bv}; the population holds {fitter[0]}", {"vals": vals, "kind": kind})
+
+
 def check_one_tracker_several_searches(h: Harness):
     """one tracker lives through SEVERAL searches (a random-search warm start followed by hill climbing or GP, the same algorithm
     object searched twice, individuals evaluated through the tracker before the search): "every individual evaluated so far" is
@@ -584,32 +619,96 @@ def check_adaptive_gp(h: Harness):
         def initialize(self, problem, representation, random, target_size, **kwargs):
             for _ in range(target_size):
                 yield Individual(representation.create_genotype(random), representation)
+    from geneticengine.evaluation.budget import SearchBudget
+    from geneticengine.evaluation.recorder import SearchRecorder
+
+    class Audited(SearchBudget):
+        """the budget the search was given, unchanged; at every check (the tracker has just taken over a generation) it compares the
+        tracker's best with everything the fitness function has been asked about so far"""
+
+        def __init__(self, inner, seen, minimize, registered):
+            self.inner, self.seen, self.minimize, self.registered, self.first_gap, self.first_lost = inner, seen, minimize, registered, None, None
+            self.checks = 0
+            self.judged = 0
+
+        def is_done(self, tracker):
+            self.checks += 1
+            b = tracker.get_best_individual()
+            if b is not None and self.seen and self.first_gap is None:
+                vals = [v for _, v in self.seen]
+                bv, best_seen = float(b.genotype[1]), (min(vals) if self.minimize else max(vals))
+                if (best_seen < bv) if self.minimize else (best_seen > bv):
+                    self.first_gap = (self.checks, bv, best_seen, len(self.seen))
+            if self.first_lost is None:
+                for u, _ in self.seen[self.judged:]:
+                    if u not in self.registered:
+                        self.first_lost = (self.checks, u)
+                        break
+                self.judged = len(self.seen)
+            return self.inner.is_done(tracker)
     rng = h.rng
-    for trial in range(h.n(4, 80)):
-        minimize = trial % 2 == 0
-        keys = [rng.randint(0, 2000) for _ in range(997)]
-        seen: list = []
+
+    def one_run(keys, minimize, budget_n, pop, seedv):
+        seen: list = []          # (uid, value) of every program the fitness function was asked about, in order
+        registered: set = set()
 
         def ff(ph, seen=seen):
-            seen.append(ph[1])
+            seen.append((ph[0], ph[1]))
             return float(ph[1])
+
+        class Reg(SearchRecorder):
+            def register(self, tracker, individual, problem, is_best):
+                registered.add(individual.genotype[0])
         problem = SingleObjectiveProblem(ff, minimize=minimize)
-        tracker = SingleObjectiveProgressTracker(problem, SequentialEvaluator())
+        tracker = SingleObjectiveProgressTracker(problem, SequentialEvaluator(), recorders=[Reg()])
         rep = ScriptRep(keys)
+        audit = Audited(AnyOf(EvaluationBudget(budget_n), TimeBudget(60)), seen, minimize, registered)
+        alg = AdaptiveGeneticProgramming(problem, audit, rep, NativeRandomSource(seedv), tracker)
+        alg.population_initializer = Plain()
+        alg.population_size = pop
+        ret = alg.search()
+        return ret, audit, seen
+
+    for trial in range(h.n(6, 80)):
+        minimize = trial % 2 == 0
+        if trial % 3 == 2:
+            keys = [rng.randint(0, 2000) for _ in range(997)]
+        else:
+            # a landscape on which new records keep coming, about every other generation (a slow drift under heavy-tailed noise): the
+            # generations in which the search stagnates are followed by generations that hold a new best somewhere
+            drift = rng.choice([0.0, 0.05, 0.15])
+            keys = [int(i * drift + rng.expovariate(1 / 40.0)) for i in range(6000)]
+            if minimize:
+                keys = [-k for k in keys]
+        budget_n, pop, seedv = rng.choice([2500, 4000]), rng.choice([300, 500]), rng.randrange(10**6)
         try:
-            alg = AdaptiveGeneticProgramming(problem, AnyOf(EvaluationBudget(rng.choice([2500, 4000])), TimeBudget(60)), rep, NativeRandomSource(rng.randrange(10**6)), tracker)
-            alg.population_initializer = Plain()
-            alg.population_size = rng.choice([300, 500])
-            ret = alg.search()
+            ret, audit, seen = one_run(keys, minimize, budget_n, pop, seedv)
+            if audit.first_gap is None and audit.first_lost is not None and audit.first_lost[1] < len(keys):
+                # an evaluated program never reached the tracker (it happened not to be a new best: no violation yet).  SEARCH: the same
+                # run once more, with that one program given a fitness beyond all others -- everything up to its evaluation is identical
+                lost_uid = audit.first_lost[1]
+                keys2 = list(keys)
+                keys2[lost_uid] = (min(keys) - 10**6) if minimize else (max(keys) + 10**6)
+                h.count("adaptive-gp-runs:replayed-with-the-lost-program-made-best")
+                ret, audit, seen = one_run(keys2, minimize, budget_n, pop, seedv)
         except Exception as e:  # noqa: BLE001
             h.fail("AdaptiveGeneticProgramming.search", "raises", f"AdaptiveGeneticProgramming raised {type(e).__name__}: {e}"[:300], {"trial": trial})
             continue
         h.count("adaptive-gp-runs")
         h.seen(f"adaptive-gp:{trial}", nontrivial=len(seen) > 600)
+        h.count("adaptive-gp-budget-checks", audit.checks)
+        vals = [v for _, v in seen]
+        if audit.first_gap is not None:
+            k, bv, best_seen, n = audit.first_gap
+            h.fail("AdaptiveGeneticProgramming.search", "evaluated-individual-never-reached-the-tracker",
+                   f"AdaptiveGeneticProgramming ({'min' if minimize else 'max'}imise, population {pop}, seed {seedv}): at budget check #{k} ({n} evaluations so far) the "
+                   f"tracker's best has fitness {bv}, but the fitness function had already returned {best_seen} for a program evaluated during the search",
+                   {"trial": trial, "check": k, "seed": seedv, "population": pop, "budget": budget_n})
+            continue
         if ret is None:
             continue
         rv = float(ret.genotype[1])
-        best_seen = min(seen) if minimize else max(seen)
+        best_seen = min(vals) if minimize else max(vals)
         if (best_seen < rv) if minimize else (best_seen > rv):
             h.fail("AdaptiveGeneticProgramming.search", "evaluated-individual-never-reached-the-tracker",
                    f"AdaptiveGeneticProgramming ({'min' if minimize else 'max'}imise, {len(seen)} evaluations): search() returned an individual of fitness {rv}, "
@@ -742,5 +841,6 @@ def run(h: Harness):
     h.exhaustive = True
     check_scale_invariance(h)
     check_searches(h)
+    check_helpers(h)
     check_one_tracker_several_searches(h)
     check_adaptive_gp(h)
